@@ -75,6 +75,15 @@ def build_store(case):
             if t is not None:
                 gid, (a, b, rel) = t
                 objs[gid].add_link(node_a=a, rel=rel, node_b=b)
+    # links that cross graph boundaries (shared store only): the stitching step merge_nodes(common id, other
+    # graph) leaves the merged node joined to nodes that still carry the other graph's GraphID ...
+    if case.get('backend', 'joint') == 'joint':
+        for gid, nid, other in case.get('merges', []):
+            objs[gid].merge_nodes(node_id=nid, other_graph=objs[other])
+        # ... and, more generally, an edge between nodes of two graphs put straight into the shared nx object
+        G = imp.storage.get_graph(None)
+        for ga, a, gb, b, rel in case.get('cross', []):
+            G.add_edge(objs[ga]._find_node(node_id=a), objs[gb]._find_node(node_id=b), Class=rel)
     return imp, objs
 
 
@@ -493,10 +502,56 @@ def random_case(rng, backend):
                 if rng.random() < 0.05:
                     hops = hops + [rng.choice(id_pool)]
                 qs.append(['hops', g['gid'], pick(), pick(), hops, rng.choice([100, 100, 100, 200, 0, 1, 2, 3, 4, -1])])
+    case = {'backend': backend, 'graphs': graphs, 'queries': qs}
+    if backend == 'joint' and len(graphs) >= 2 and rng.random() < 0.6:
+        add_cross(rng, case)
     if rng.random() < 0.05:
         qs.append(['first', 'g7', 'n0', 'has', 'NetworkNode'])      # a graph that is not in the store
         qs.append(['sp', 'g7', 'n0', 'n1', None])
-    return {'backend': backend, 'graphs': graphs, 'queries': qs}
+    return case
+
+
+def add_cross(rng, case):
+    """cross-graph links (real merge_nodes and/or injected edges) and queries that start at their end points
+    and ask for the relation and class of the FOREIGN neighbour"""
+    graphs, qs = case['graphs'], case['queries']
+    cls_of = {(g['gid'], n[0]): n[1] for g in graphs for n in g['nodes']}
+    ends = []            # (gid, node id, relation, class of the foreign neighbour)
+    merged_away = set()
+    if rng.random() < 0.5:
+        ga, gb = rng.sample(graphs, 2)
+        common = sorted(set(n[0] for n in ga['nodes']) & set(n[0] for n in gb['nodes']), key=nid_n)
+        if common:
+            nid = rng.choice(common)
+            case['merges'] = [[ga['gid'], nid, gb['gid']]]
+            merged_away.add((gb['gid'], nid))
+            for a, b, rel in gb['links']:
+                if nid in (a, b) and a != b:
+                    o = b if a == nid else a
+                    ends.append((ga['gid'], nid, rel, cls_of[(gb['gid'], o)]))
+    if 'merges' not in case or rng.random() < 0.5:
+        case['cross'] = []
+        for _ in range(rng.choice([1, 1, 2, 3])):
+            ga, gb = rng.sample(graphs, 2)
+            a, b = rng.choice(ga['nodes'])[0], rng.choice(gb['nodes'])[0]
+            if (ga['gid'], a) in merged_away or (gb['gid'], b) in merged_away:
+                continue
+            rel = rng.choice(RELS)
+            case['cross'].append([ga['gid'], a, gb['gid'], b, rel])
+            ends.append((ga['gid'], a, rel, cls_of[(gb['gid'], b)]))
+            ends.append((gb['gid'], b, rel, cls_of[(ga['gid'], a)]))
+    for gid, nid, rel, cls in ends:
+        g = [x for x in graphs if x['gid'] == gid][0]
+        ids = [n[0] for n in g['nodes']]
+        qs.append(['first', gid, nid, rel, cls])
+        qs.append(['parent', gid, nid, rel, cls])
+        qs.append(['second', gid, nid, rel, cls, rng.choice(RELS), rng.choice(CLASSES)])
+        qs.append(['second', gid, rng.choice(ids), rng.choice(RELS), cls_of[(gid, nid)], rel, cls])
+        qs.append(['sp', gid, nid, rng.choice(ids), rng.choice([None, rel])])
+        qs.append(['peers', gid, nid])
+        qs.append(['nodecps', gid, nid])
+        if len(ids) <= 8 and len(g['links']) <= 14:
+            qs.append(['hops', gid, nid, rng.choice(ids), [], 100])
 
 
 def exhaustive_cases(nmax, backend, hop_mode, sorted_classes_from=99):
@@ -515,7 +570,11 @@ def exhaustive_cases(nmax, backend, hop_mode, sorted_classes_from=99):
             for ed in itertools.product([None] + rels, repeat=len(pairs)):
                 g = {'gid': 'g0', 'nodes': [[i, c] for i, c in zip(ids, cl)],
                      'links': [[a, b, r] for (a, b), r in zip(pairs, ed) if r is not None]}
-                out.append({'backend': backend, 'graphs': [g, foreign],
+                cross = []
+                if backend == 'joint' and n >= 2:
+                    # n0 -has- (g1's NetworkService n1), n1 -connects- (g1's ConnectionPoint n0), n0 -connects- (g1's Link n5)
+                    cross = [['g0', 'n0', 'g1', 'n1', 'has'], ['g0', 'n1', 'g1', 'n0', 'connects'], ['g0', 'n0', 'g1', 'n5', 'connects']]
+                out.append({'backend': backend, 'graphs': [g, foreign], 'cross': cross,
                             'queries': all_queries(g, classes, rels, hop_mode=hop_mode,
                                                    cutoffs=(100, 1) if n <= 3 else (100,))})
     return out
@@ -578,15 +637,16 @@ class QueryStream(Stream):
     def key(self, case, obs):
         if not any(g['links'] for g in case['graphs']):
             return None
-        return stable_hash([case['graphs'], case['queries']])
+        return stable_hash([case['graphs'], case.get('merges'), case.get('cross'), case['queries']])
 
     def describe(self, case, obs):
-        return {'graphs': case['graphs'], 'backend': case.get('backend'),
+        return {'graphs': case['graphs'], 'merges': case.get('merges', []), 'cross': case.get('cross', []), 'backend': case.get('backend'),
                 'queries': len(case['queries']), 'first_results': list(zip(case['queries'], obs['results']))[:3]}
 
     def histogram(self, cases, obs):
         h = {'queries': 0, 'graphs_in_store': {}, 'nodes_in_queried_graph': {}, 'kinds': {}, 'raised': 0,
-             'nonempty_results': 0, 'known_finding_hits': 0, 'self_loops': 0, 'backend': {}}
+             'nonempty_results': 0, 'known_finding_hits': 0, 'self_loops': 0, 'backend': {},
+             'stores_with_cross_graph_edges': 0, 'cross_graph_edges': 0, 'stores_after_merge_nodes': 0}
         for c, o in zip(cases, obs):
             h['queries'] += len(c['queries'])
             k = str(len(c['graphs']))
@@ -596,6 +656,11 @@ class QueryStream(Stream):
                 k = str(len(g['nodes']))
                 h['nodes_in_queried_graph'][k] = h['nodes_in_queried_graph'].get(k, 0) + 1
                 h['self_loops'] += sum(1 for l in g['links'] if l[0] == l[1])
+            gof = {n[0]: n[1] for n in o['raw']['nodes']}
+            nx_ = sum(1 for a, b, _ in o['raw']['edges'] if gof.get(a) != gof.get(b))
+            h['cross_graph_edges'] += nx_
+            h['stores_with_cross_graph_edges'] += nx_ > 0
+            h['stores_after_merge_nodes'] += bool(c.get('merges')) and c.get('backend', 'joint') == 'joint'
             for q, r in zip(c['queries'], o['results']):
                 h['kinds'][q[0]] = h['kinds'].get(q[0], 0) + 1
                 h['raised'] += 'err' in r
@@ -605,6 +670,8 @@ class QueryStream(Stream):
 
     def shrink(self, case, failing):
         case = json.loads(json.dumps(case))
+        failing0 = failing
+        failing = lambda c: 'build_err' not in self.observe(c) and failing0(c)
         # 1. one query
         o = self.observe(case)
         fs = [f for f in self.failures(case, o) if not f[1].startswith(KNOWN_TAG)] or self.failures(case, o)
@@ -616,6 +683,16 @@ class QueryStream(Stream):
         changed = True
         while changed:
             changed = False
+            for fld in ('merges', 'cross'):
+                for i in range(len(case.get(fld, []))):
+                    c2 = dict(case, **{fld: case[fld][:i] + case[fld][i + 1:]})
+                    if failing(c2):
+                        case, changed = c2, True
+                        break
+                if changed:
+                    break
+            if changed:
+                continue
             for gi in range(len(case['graphs'])):
                 c2 = dict(case, graphs=case['graphs'][:gi] + case['graphs'][gi + 1:])
                 if c2['graphs'] and failing(c2):
@@ -651,7 +728,10 @@ class RandomStream(QueryStream):
     rule = ('1-3 random typed graphs (1-12 nodes each; tree/sparse/medium/dense/FIM-shaped; overwritten links, self-loops; '
             'NodeIDs shared between graphs) in one store, both in-memory backends; per graph 3 queries of each kind '
             '(first, second, shortest path with and without relation, parent), helpers, path-with-hops on graphs <= 8 nodes; '
-            'a few start nodes / graphs that do not exist; non-trivial = the store has an edge; distinct by (graphs, queries)')
+            'a few start nodes / graphs that do not exist; 60% of the shared-store cases with >= 2 graphs hold CROSS-GRAPH edges '
+            '(real merge_nodes of a common NodeID and/or edges injected between nodes of two graphs) with extra queries at '
+            'their end points for the relation/class of the foreign neighbour; non-trivial = the store has an edge; '
+            'distinct by (graphs, merges, cross links, queries)')
 
     def gen(self, rng, tier):
         n = 260 if tier == 'quick' else 6000
@@ -672,7 +752,8 @@ class ExhaustiveStream(QueryStream):
     rule = ('EVERY loop-free typed graph with <= 3 nodes (quick) / <= 4 nodes (thorough; 4-node graphs up to renaming: class '
             'vector sorted) over 2 classes x 2 relations, stored next to a foreign graph reusing the same NodeIDs; EVERY '
             'start/end node, relation (and none), class, hop set (quick: all subsets; 4 nodes: empty, singletons, all) and '
-            'cutoff in {100,1}; one case = one graph with all its queries')
+            'cutoff in {100,1}; on the shared store every enumerated graph with >= 2 nodes is also joined to the foreign graph '
+            'by three cross-graph edges; one case = one graph with all its queries')
 
     def gen(self, rng, tier):
         if tier == 'quick':
